@@ -2,6 +2,7 @@
 //! the direct (non-protocol) explorations some properties need.
 
 pub mod random;
+pub mod scalar;
 pub mod tensor;
 
 use crate::exec::Toks;
@@ -21,6 +22,8 @@ pub fn lit(p: &mut Toks) -> String {
 pub fn direct(ctx: &mut Ctx) {
     match ctx.prop.as_str() {
         "C18" => random::direct(ctx),
+        "C07" => scalar::direct_c07(ctx),
+        "C03" => scalar::direct_c03(ctx),
         _ => (),
     }
 }
